@@ -17,5 +17,5 @@ import (
 // block that spent them.  Shares the executor of C24 (c24_test.go), with the maturity judgement.
 func TestC25(t *testing.T) {
 	pbt.Run(t, "C25", "histories as in C24 with epoch length 3, a linear prefix of 12-22 blocks in which wallet programs collect coinbase rewards (so that reward outputs mature and get spent later), vote locks 2-3 with an optional second lock range (1-5 blocks from height 3-12 on), then runs of blocks that reorganise; after each quiescence of the wallet updater every stored UTXO record with ValidHeight <= current height that is an unspent output of the main chain must satisfy the consensus spending rule for a block at height current+1 (coinbase: created+10 <= h+1; vote: created+lock(h+1) <= h+1); non-trivial = a judged usable coinbase or vote output had been restored by the wallet detaching the block that spent it; distinct = case JSON",
-		pbt.Options{Checks: pbt.Per(120, 15000)}, genWCase(12, 22, 2, 6, []uint64{3}), walletExec(judgeMaturity))
+		pbt.Options{Checks: pbt.Per(500, 24000), MinClass: map[string]int{"judged-usable-restored-coinbase": 10, "judged-usable-restored-vote": 10, "chain-got-shorter": 10}}, genWCase(12, 22, 2, 6, []uint64{3}, 24), walletExec(judgeMaturity))
 }
